@@ -113,6 +113,25 @@ def entrySolo (now : Nat) (n : Node) (issuer purpose : String) (env : Env := env
   let w' := soloFrom 40 w 0 env
   (w'.node, match w'.threads[0]? with | some th => phaseLine th.phase | none => "?")
 
+/-- `rebase` op: the node's base URL is `alt` for the duration of the op; `k` sequential `Entry` calls of `issuer`, then a
+    `Revoke` of every entry handed out; the base URL is restored afterwards -/
+def rebaseOp (now : Nat) (n : Node) (issuer alt : String) (k : Nat) (env : Env) : Node × String :=
+  let n0 : Node := { n with base := alt }
+  let (n1, lines, ents) := (List.range k).foldl (fun (acc : Node × List String × List (Url × Nat)) _ =>
+      let w : EWorld := { node := acc.1, threads := [{ issuer := issuer }], now := now }
+      let w' := soloFrom 40 w 0 env
+      match w'.threads[0]? with
+      | some th =>
+        (w'.node, acc.2.1 ++ [phaseLine th.phase], match th.phase with | .done l i => acc.2.2 ++ [(l, i)] | _ => acc.2.2)
+      | none => (w'.node, acc.2.1 ++ ["?"], acc.2.2)) (n0, [], [])
+  let (n2, rs) := ents.foldl (fun (acc : Node × List String) (e : Url × Nat) =>
+      match revoke env now acc.1 ("did:web:example.com#" ++ toString e.2) { list := e.1, idx := some (e.2 : Int) } with
+      | .ok n' => (n', acc.2 ++ ["ok"])
+      | .err "revoked" => (acc.1, acc.2 ++ ["revoked"])
+      | .err x => (acc.1, acc.2 ++ ["err:" ++ x])
+      | .panic x => (acc.1, acc.2 ++ ["panic:" ++ x])) (n1, [])
+  ({ n2 with base := n.base }, s!"rebase entries=[{String.intercalate " ; " lines}] revokes=[{String.intercalate " " rs}]")
+
 /-- one whole transaction of thread `tid` with nothing interleaved: select (deterministic row), then the write half -/
 def oneTx (w : EWorld) (tid : Nat) : EWorld :=
   match w.threads[tid]? with
@@ -350,6 +369,9 @@ def step (w : World) (j : Json) : World × List String :=
     let c := parseCred (jObj j "cred")
     let (v, w') := statusVerify env node { w with log := [] } c
     (w', [s!"verify {verdictStr v} dl=[{String.intercalate "," (w'.log.map urlName)}]"])
+  | "rebase" =>
+    let (n', l) := rebaseOp w.now n (jStr j "issuer") (jStr j "raw") (jNat j "to") env
+    (w.set node n', [l])
   | "bits" => (w, [bitsOp j])
   | "wire" => (w, [wireOp j])
   -- second harness (vcr/verifier): node 1 is the verifier
